@@ -39,7 +39,11 @@ def runCacheOp (inp out : Json) : Json :=
       -- real time passes between operations: one tick
       ((cacheStep c' (.advance 1)).1, (storeStep s' (.advance 1)).1, outs ++ [(oc, os)])
   let (_, _, mouts) := opsJ.foldl step ({}, {}, [])
-  let reals := outsJ.map outOf
+  -- byte-identical results: only "did a real invocation happen" is observable
+  let const := jbool inp "const"
+  let blur (o : COut) : COut := if const then o.map (fun (_, real) => (0, real)) else o
+  let mouts := mouts.map (fun (a, b) => (blur a, blur b))
+  let reals := outsJ.map (fun j => let (o, p) := outOf j; (blur o, p))
   let isInvoke (j : Json) : Bool := jstr (jget j "k") == "invoke"
   -- after a panic the real run and the models no longer line up: compare up to it
   let rowsAll := (opsJ.zip (mouts.zip reals))
